@@ -477,6 +477,8 @@ def execute_mps(desc):
         psi = G.build_state(desc['obj'], fam, N) if desc['kind'] == 'mps' else G.build_mpo(desc['obj'], fam, N)
     except YastnError as e:
         raise Reject('builder:' + str(e)[:40])
+    if psi is None:
+        raise Reject('zero_random_state')
     f = desc['factor']
     f = C.cplx(f) if isinstance(f, dict) else f
     if f != 1:
